@@ -10,7 +10,7 @@ PROPERTY = "C12"
 RULE = ("digitize: strictly monotonic bins (length 1..40 quick / 1..80 thorough, both directions; dyadic-grid edges so that "
         "queries can hit an edge exactly, or arbitrary doubles) x query points = every edge, every midpoint, the float32 "
         "neighbours of every edge, far outliers and random draws, all float32-representable; oracle numpy.digitize(right=True). "
-        "digitize-lengths: every length 1..64 (1..200 thorough) x both directions on integer edges (exhaustive over lengths). "
+        "digitize-lengths: every length 1..64 (1..200 thorough) plus the lengths around powers of two up to 1025 (4097 thorough) x both directions on integer edges (exhaustive over lengths). "
         "trees: DecisionTreeRegressor/Classifier fitted on generated float32-grid data (depth 1..6, single-node trees included), "
         "queries on the grid plus float32 neighbours of every threshold; oracles: apply(), children arrays, and box<->routing "
         "equivalence in both directions; then the same estimator object is refitted (mirrored data, reversed targets or a prefix) and everything is checked again on the tree it holds now. Non-trivial: >=3 bins and an edge hit (digitize); >=3 leaves (trees).")
@@ -100,7 +100,9 @@ def _digitize_cases(draw, tier="quick"):
 
 def _length_cases(tier):
     nmax = 64 if tier == "quick" else 200
-    for n in range(1, nmax + 1):
+    # every length up to nmax, then lengths around the powers of two up to 1024 (4096 thorough)
+    more = [127, 128, 129, 255, 256, 257, 511, 512, 513, 1023, 1024, 1025] + ([2047, 2048, 2049, 4095, 4096, 4097] if tier != "quick" else [])
+    for n in list(range(1, nmax + 1)) + [m for m in more if m > nmax]:
         for desc in (False, True):
             bins = [float(3 * i) for i in range(n)]
             if desc:
